@@ -198,6 +198,10 @@ class Translator:
         if type(op) not in self.CMP:
             raise Unrecognised("comparison operator")
         zop, dop = self.CMP[type(op)]
+        # Typed cases.  grid/grid (crypto amounts, 1e-11 units) and int/int: RP2Decimal compares after quantising to 13
+        # decimals, which is exact on the 1e-11 grid, so the comparison is the integer one (`self.crypto_fee > ZERO` ->
+        # `(Z.gtb (x_crypto_fee t) 0)`).  Anything involving a dec (fiat values, 31 significant digits) keeps RP2Decimal's
+        # 13-decimal comparison (`self.fiat_fee > ZERO` -> `(dgtb (x_fiat_fee t) dzero)`).
         if a[1] == b[1] and a[1] in ("grid", "int"):
             if zop is None:
                 return (f"(negb (Z.eqb {a[0]} {b[0]}))", "bool")
